@@ -713,7 +713,7 @@ func (c c15Case) mutate(tree *node, st *vstat.Stats) (mut []byte, labels, desc [
 				continue
 			}
 			mut = nb
-			labels = append(labels, "op:"+m.Op, "level:bytes")
+			labels = append(labels, "op:"+m.Op, "class:"+opClass(m.Op), "level:bytes")
 			desc = append(desc, m.Op)
 			continue
 		}
@@ -727,7 +727,7 @@ func (c c15Case) mutate(tree *node, st *vstat.Stats) (mut []byte, labels, desc [
 			continue
 		}
 		lv := levelClass(t)
-		labels = append(labels, "op:"+m.Op, "level:"+lv)
+		labels = append(labels, "op:"+m.Op, "class:"+opClass(m.Op), "level:"+lv)
 		desc = append(desc, m.Op+"@"+lv)
 	}
 	if !treeDone {
